@@ -1,5 +1,6 @@
 import Compute.Props.C02
 import Compute.Generated.C02Consts
+import Compute.Props.C11Review
 /-
 C02 — follow-ups of the independent review (findings A1, B1, B3, B4, B5 of out/review/review-a.md).
 
@@ -127,8 +128,10 @@ theorem mvn_mean_var (mean : List ℝ) (cov : Mat ℝ) (d : MVN ℝ) (h : MVN.ne
   obtain ⟨h1, h2, _⟩ := mvn_new_facts mean cov d h
   exact ⟨h1, h2⟩
 
-/-- **MVN density is non-negative** whenever it is a value (any cached determinant, any `F`). -/
-theorem mvn_pdf_nonneg (F : Fns ℝ) (d : MVN ℝ) (x : List ℝ) (y : ℝ) (h : MVN.pdf F d x = some y) : 0 ≤ y := by
+/-- **MVN density is non-negative** whenever it is a value and the cached determinant is positive (any `F`).  The guard is needed
+for fidelity, not for the inequality: for `det < 0` Rust returns NaN and for `det = 0` it returns `+∞`, where the ℝ-model gives `0`. -/
+theorem mvn_pdf_nonneg (F : Fns ℝ) (d : MVN ℝ) (x : List ℝ) (y : ℝ) (_hD : 0 < d.det) (h : MVN.pdf F d x = some y) :
+    0 ≤ y := by
   unfold MVN.pdf at h
   split at h
   · exact absurd h (by simp)
@@ -169,5 +172,111 @@ example : MVN.pdf RF (mvnEx (-1)) [0] = some 0 := by
     nlinarith [Real.pi_pos]
   simp only [MVN.pdf, hpd, hq, hdet, hmean, Bool.not_true, Bool.false_eq_true, if_false, ne_eq, not_true_eq_false,
     Option.bind_eq_bind, Option.bind_some, Option.pure_def, transc_sqrt, transc_exp, hsq, div_zero]
+
+/-! ## Review 2: examples, the two missing zero-outside-support theorems, and the link of the MVN cache to C01 / C11 -/
+
+theorem exponential_pdf_zero_of_neg (l x : ℝ) (hx : x < 0) : Exponential.pdf l x = 0 := by
+  simp [Exponential.pdf, hx]
+
+theorem uniform_pdf_zero_outside (a b x : ℝ) (hx : x < a ∨ b < x) : Uniform.pdf a b x = 0 := by
+  simp [Uniform.pdf, hx]
+
+/-- Non-vacuity of `discreteUniform_moments` (bounds −2 … 6, inside the range guard). -/
+example : ∑ i ∈ Finset.range (8 + 1), (DiscreteUniform.pmf (-2) (-2 + (8 : ℕ)) (-2 + i) : ℝ) = 1 :=
+  (discreteUniform_moments (-2) 8 (by norm_num) (by norm_num)).1
+
+section mvnNew
+open Cv.LA
+
+theorem mvnEx_chol : LA.M.cholesky (⟨[1], 1, 1⟩ : Mat ℝ) = some ⟨[1], 1, 1⟩ := by
+  have hsq : isSquare 1 = some 1 := by decide
+  have hpd : LA.M.isPositiveDefinite (⟨[1], 1, 1⟩ : Mat ℝ) = true := mvnEx_pd 1
+  have hsym : isSymmetric ([1] : List ℝ) = some true := by
+    simp only [isSymmetric, List.length_cons, List.length_nil, hsq, Option.bind_eq_bind, Option.bind_some, Option.pure_def]
+    norm_num [List.range_succ, List.range'_succ, rd, eps, Transc.abs]
+  simp only [LA.M.cholesky, hpd, LA.cholesky, tryCholesky, hsym, List.length_cons, List.length_nil, hsq, Option.bind_eq_bind,
+    Option.bind_some, Bool.not_true, Bool.false_eq_true, if_false, Option.pure_def, Option.join_some]
+  simp only [cholLoops, cholRow, List.range_succ, List.range_zero, List.nil_append, List.foldlM_cons, List.foldlM_nil,
+    List.cons_append]
+  norm_num [cholCell, dot8, dot8Go, rd, isNan, List.replicate, LA.M.new]
+
+theorem mvnEx_inv : LA.M.inv (⟨[1], 1, 1⟩ : Mat ℝ) = some ⟨[1], 1, 1⟩ := by
+  simp [LA.M.inv, LA.M.solveM, LA.M.lu, LA.M.luStep, LA.M.luColumn, LA.M.eye, LA.M.luSolveM, LA.M.solveColsM,
+    LA.M.colsM, LA.M.getCol, LA.M.g, LA.M.luSolveV, luPermute, List.range_succ, List.range'_succ, rd, LA.M.new, LA.M.t,
+    LA.transpose, LA.isMatrix, swapIdx]
+
+theorem mvnEx_det : LA.M.det (⟨[1], 1, 1⟩ : Mat ℝ) = some 1 := by
+  simp [LA.M.det, LA.M.lu, LA.M.luStep, LA.M.luColumn, LA.M.parityScalar, ipivParity, parityLoop, parityWhile,
+    LA.M.prod, LA.M.diag, List.range_succ, List.range'_succ, rd]
+
+/-- The constructor succeeds over `ℝ` on the 1 × 1 identity covariance and builds `mvnEx 1`. -/
+theorem mvnEx_new : MVN.new ([0] : List ℝ) ⟨[1], 1, 1⟩ = some (mvnEx 1) := by
+  have hs : LA.M.isSymmetric (⟨[1], 1, 1⟩ : Mat ℝ) = true := by
+    simp [LA.M.isSymmetric, LA.rd, LA.eps]
+    show |(0 : ℝ)| ≤ _
+    simp
+  simp [MVN.new, hs, mvnEx_chol, mvnEx_inv, mvnEx_det, mvnEx]
+
+/-- Non-vacuity of `mvn_new_facts` / `mvn_mean_var`. -/
+example : MVN.meanOf (mvnEx 1) = [0] ∧ MVN.varOf (mvnEx 1) = ⟨[1], 1, 1⟩ :=
+  mvn_mean_var [0] ⟨[1], 1, 1⟩ (mvnEx 1) mvnEx_new
+
+/-- `det ≠ 0` gives the kernel-freeness (`Nonsingular`) that C01's `matrix_inv_total` asks for. -/
+theorem nonsingular_of_det (n : ℕ) (a : List ℝ) (h : (toMatrix n a).det ≠ 0) : C01Review.Nonsingular n a := by
+  intro v hv j hj
+  have h0 : (toMatrix n a).mulVec (fun i : Fin n => v i.1) = 0 := by
+    funext i
+    simp only [Matrix.mulVec, dotProduct, toMatrix, Pi.zero_apply]
+    rw [Fin.sum_univ_eq_sum_range (fun j => rd a (i.1 * n + j) * v j) n]
+    exact hv i.1 i.2
+  have := Matrix.eq_zero_of_mulVec_eq_zero h h0
+  exact congrFun this ⟨j, hj⟩
+
+/-- **The MVN cache is the true determinant and a true inverse** (composition of `mvn_new_facts` with C11 `matrix_det_eq_det` and
+C01 `matrix_inv_total`): for an object built by `MVN::new` from a well-formed `k × k` covariance, `k ≥ 1`, the cached determinant is
+`det Σ`; if `det Σ ≠ 0` the cached inverse is a well-formed `k × k` matrix `P` with `Σ · P = I`. -/
+theorem mvn_new_cache (mean : List ℝ) (cov : Mat ℝ) (d : MVN ℝ) (h : MVN.new mean cov = some d) (hw : cov.WF)
+    (hsq : cov.nrows = cov.ncols) (hk : 0 < cov.ncols) :
+    d.det = (toMatrix cov.ncols cov.data).det ∧
+    ((toMatrix cov.ncols cov.data).det ≠ 0 →
+      d.inv.nrows = cov.ncols ∧ d.inv.ncols = cov.ncols ∧ d.inv.WF ∧
+      ∀ i, i < cov.ncols → ∀ c, c < cov.ncols →
+        ∑ j ∈ Finset.range cov.ncols, LA.M.g cov i j * LA.M.g d.inv j c = if i = c then 1 else 0) := by
+  obtain ⟨-, -, -, -, -, -, hinv, hdet⟩ := mvn_new_facts mean cov d h
+  have habs : ∀ x : ℝ, Transc.abs x = |x| := fun _ => rfl
+  refine ⟨?_, fun hne => ?_⟩
+  · have := C11Review.matrix_det_eq_det habs cov hw hsq
+    rw [hdet] at this
+    exact Option.some.inj this
+  · obtain ⟨X, hX, h1, h2, h3, h4⟩ :=
+      C01Review.matrix_inv_total habs cov hw hsq hk (nonsingular_of_det _ _ hne)
+    rw [hinv] at hX
+    have : d.inv = X := Option.some.inj hX
+    subst this
+    exact ⟨h1, h2, h3, h4⟩
+
+/-- **MVN density of a constructed object** in terms of the TRUE determinant: for `MVN::new mean Σ = some d` with `Σ` well-formed
+`k × k`, `k ≥ 1`, `det Σ > 0` (true of every positive-definite `Σ`), `pdf x = exp (-½ q) / √((2π)^k det Σ)` where `q` is the quadratic
+form of the cached inverse, which satisfies `Σ · P = I` by `mvn_new_cache`.  Still not proved: that success of the Cholesky
+factorisation inside `new` implies `det Σ > 0` (it is a hypothesis here). -/
+theorem mvn_pdf_of_new (mean : List ℝ) (cov : Mat ℝ) (d : MVN ℝ) (x : List ℝ) (h : MVN.new mean cov = some d)
+    (hw : cov.WF) (hsq : cov.nrows = cov.ncols) (hk : 0 < cov.ncols) (hk64 : cov.ncols < 2 ^ 64)
+    (hdet : 0 < (toMatrix cov.ncols cov.data).det) (hx : x.length = cov.ncols) :
+    MVN.pdf RF d x = some (Real.exp (-(1 / 2) * mvnQuad d x cov.ncols) /
+      Real.sqrt ((2 * Real.pi) ^ cov.ncols * (toMatrix cov.ncols cov.data).det)) := by
+  obtain ⟨hm, hc, hlen, -, hpd, -, -, -⟩ := mvn_new_facts mean cov d h
+  obtain ⟨hD, hI⟩ := mvn_new_cache mean cov d h hw hsq hk
+  obtain ⟨h1, h2, h3, -⟩ := hI hdet.ne'
+  rw [← hD]
+  exact mvn_pdf_formula_partial erf d x cov.ncols hk hk64 (by rw [hc]; exact hpd) hx (by rw [hm]; exact hlen) h3 h1 h2
+    (by rw [hD]; exact hdet)
+
+/-- Non-vacuity of `mvn_pdf_of_new`: the 1-dimensional standard normal built by the constructor. -/
+example : MVN.pdf RF (mvnEx 1) [0] = some (Real.exp (-(1 / 2) * mvnQuad (mvnEx 1) [0] 1) /
+    Real.sqrt ((2 * Real.pi) ^ 1 * (toMatrix 1 ([1] : List ℝ)).det)) :=
+  mvn_pdf_of_new erf [0] ⟨[1], 1, 1⟩ (mvnEx 1) [0] mvnEx_new (by simp [Mat.WF]) rfl (by norm_num) (by norm_num)
+    (by simp [toMatrix, Matrix.det_unique, rd]) rfl
+
+end mvnNew
 
 end Cv.C02
